@@ -141,7 +141,13 @@ def trace_part(prop, insts, V, workdir, samples=3, nproc=None):
             seen.add(key)
             win = t["ev"][max(0, l - 4):l]
             evt = t["ev"][l - 1] if 1 <= l <= len(t["ev"]) else {}
-            if V.report(dict(clause=clause, site=evname, cls=cfg_class(byid[tid]), retflag="%s/%s" % (evt.get("flag"), evt.get("msgc")), what="trace %d event %d (%s): clause %s false" % (tid, l, evname, clause),
+            if clause == "identical_to_reference_run":
+                if "c19first" in seen:
+                    continue          # later differences are consequences of the first one
+                seen.add("c19first")
+            if V.report(dict(clause=clause, site=evname, cls=cfg_class(byid[tid]), retflag="%s/%s" % (evt.get("flag"), evt.get("msgc")),
+                             hasproj="yes" if byid[tid].get("proj") else "no", dyksite=str(evt.get("site", "")), exc=("%s: %s" % (evt.get("type"), str(evt.get("text"))[:60])) if evname == "Raise" else "",
+                             retnx=str(evt.get("nx", "")), averaging="yes" if byid[tid].get("nsamples", "1") != "1" else "no", what="trace %d event %d (%s): clause %s false" % (tid, l, evname, clause),
                              instance=dict(kind="solver", inst=byid[tid]), window=win, cfg=t["cfg"])):
                 nviol += 1
     outcomes, classes, counts = {}, set(), {}
